@@ -990,7 +990,7 @@ class AASDataChecker(DataChecker):
         """
         # TODO: going by attribute name here isn't exactly pretty...
         if attribute_name in ('value_type', 'value_type_list_element', 'type_value_list_element') \
-                and getattr(object_, attribute_name) is not None:
+                and getattr(object_, attribute_name) is not None and expected_value is not None:
             # value_type_list_element can be None and doesn't have the __name__ attribute in this case
             kwargs['value'] = getattr(object_, attribute_name).__name__
             return self.check(getattr(object_, attribute_name) is expected_value,  # type:ignore
